@@ -67,6 +67,10 @@ def run(ctx):
         A.check_script(ctx, r, arms, ('Method', 'n', 'channel', 'CloseOk'))
         A.check_script(ctx, r, arms, ('Method', 'n', 'channel', 'Close'))
 
+    with ctx.rule('R20.6', "the close's error reaches the requests that lose the race: Connection::close reports the I/O thread's result, a failed send reads the queued error (shared with C05/C09)", floor=9) as r:
+        A.include(ctx, r, 'c05', 'R05.5')
+        A.include(ctx, r, 'c09', 'R09.3')
+
     with ctx.rule('R20.4', 'token domain: every registered token has an arm', floor=1) as r:
         ok, why = panics.token_domain(ctx)
         r.check('token-domain', ok, ctx.site(HSE), built=why)
